@@ -539,6 +539,73 @@ Proof.
   intros from name. enter. destruct from; repeat step; try reflexivity.
   all: match goal with |- context [call ?f ?a] => destruct (call f a) as [[|? [|? ?]]| | |] end; reflexivity.
 Qed.
+
+(* whether the Value FetchFn / FetchFnNil returns is the ZERO Value - what the OpMethodNilSafe arm of vm.go asks
+   with IsValid() before it either pushes nil or Calls (a panic inside FetchFn is not a zero Value) *)
+Definition observed_zero (r : gres (list gval)) : option bool :=
+  match r with
+  | GOk [GRv v] => Some (match v with RInvalid => true | _ => false end)
+  | GFail _ => Some false
+  | _ => None
+  end.
+
+Lemma FetchFn_zero_bridge : nmeth_sound -> forall from name,
+  named_ok from = true -> fn_map_ok from = true ->
+  observed_zero (run rt_FetchFn [GI from; GStr name]) = Some (fetch_fn_zero from name).
+Proof.
+  intros Hm from name Hn Hmap. enter.
+  destruct from.
+  - (* VNil *) repeat step. reflexivity.
+  - nameless.
+  - nameless.
+  - nameless.
+  - nameless.
+  - nameless.
+  - (* VMap *) repeat step. cbn [fn_map_ok] in Hmap.
+    match goal with |- context [0 <? nm ?v] => destruct (0 <? nm v) end;
+      cbn [method_of type_name_of]; evx; repeat step; cbn [dyn_type]; rewrite Hmap; evx.
+    all: cbn [fetch_fn_zero]; destruct (assoc_val (VStr name) m) as [x|]; evx; repeat step; try reflexivity.
+    all: destruct et; destruct x; evx; repeat step; try reflexivity.
+    all: destruct ptr; evx; repeat step; reflexivity.
+  - (* VStruct *) destruct ptr.
+    all: repeat step.
+    all: match goal with |- context [0 <? nm ?v] => destruct (0 <? nm v) eqn:E end;
+         cbn [method_of type_name_of fetch_fn_zero].
+    all: try match goal with
+         | |- context [fn_method fe ?t ?p ?n] =>
+           try (pose proof (Hm (VStruct t p fields) n) as Hx; apply Z.ltb_ge in E; specialize (Hx E);
+                cbn [method_of type_name_of] in Hx);
+           destruct (fn_method fe t p n) as [id|] eqn:EM; try discriminate Hx
+         end.
+    all: evx; repeat step; try reflexivity; struct_field.
+  - (* VNilPtr *) destruct t; try nameless.
+    repeat step.
+    match goal with |- context [0 <? nm ?v] => destruct (0 <? nm v) eqn:E end; cbn [method_of type_name_of fetch_fn_zero].
+    all: try match goal with
+         | |- context [fn_method fe ?t ?p ?n] =>
+           try (pose proof (Hm (VNilPtr (TStruct t)) n) as Hx; apply Z.ltb_ge in E; specialize (Hx E);
+                cbn [method_of type_name_of] in Hx);
+           destruct (fn_method fe t p n) as [id|] eqn:EM; try discriminate Hx
+         end.
+    all: evx; repeat step; reflexivity.
+  - (* VNilMap *) repeat step. cbn [fn_map_ok] in Hmap.
+    match goal with |- context [0 <? nm ?v] => destruct (0 <? nm v) end;
+      cbn [method_of type_name_of]; evx; repeat step; cbn [dyn_type]; rewrite Hmap; evx; repeat step; reflexivity.
+  - nameless.
+  - (* VNamed *) destruct from; try discriminate Hn.
+    all: repeat step.
+    all: match goal with |- context [0 <? nm ?v] => destruct (0 <? nm v) eqn:E end;
+         cbn [method_of type_name_of fetch_fn_zero].
+    all: try match goal with
+         | |- context [fn_method fe ?t ?p ?n] =>
+           try (match type of E with (0 <? nm ?v) = false =>
+                  pose proof (Hm v n) as Hx; apply Z.ltb_ge in E; specialize (Hx E);
+                  cbn [method_of type_name_of] in Hx end);
+           destruct (fn_method fe t p n) as [id|] eqn:EM; try discriminate Hx
+         end.
+    all: evx; repeat step; reflexivity.
+  - nameless.
+Qed.
 End Stage1.
 
 (* ================================================================== the table: every callee is its own lemma *)
@@ -622,7 +689,45 @@ Proof.
      try discriminate B; try exact B;
      destruct r; try discriminate B; exact B).
 Qed.
+
+Lemma FetchFn_zero_is_model : nmeth_sound fe nm -> forall d from name,
+  named_ok from = true -> fn_map_ok from = true ->
+  observed_zero (sem (S d) "FetchFn" [GI from; GStr name]) = Some (fetch_fn_zero from name).
+Proof. intros Hm d from name H1 H2. open_fn rt_FetchFn. apply FetchFn_zero_bridge; assumption. Qed.
+
+(* FetchFnNil: the zero Value for a nil receiver, else whatever FetchFn returns *)
+Lemma FetchFnNil_zero_is_model : nmeth_sound fe nm -> forall d from name,
+  named_ok from = true -> fn_map_ok from = true ->
+  observed_zero (sem (S (S d)) "FetchFnNil" [GI from; GStr name]) =
+  Some (match from with VNil => true | _ => fetch_fn_zero from name end).
+Proof.
+  intros Hm d from name H1 H2. open_fn rt_FetchFnNil. rewrite FetchFnNil_bridge.
+  pose proof (FetchFn_zero_is_model Hm d from name H1 H2) as B.
+  destruct from; try reflexivity;
+    (destruct (sem (S d) "FetchFn" _) as [[|r [|? ?]]| | |]; cbn [gbind observed_zero] in *;
+     try discriminate B; try exact B;
+     destruct r; try discriminate B; exact B).
+Qed.
 End Knot.
+
+(* the zero-Value test of the nil-safe method call IS the source's: for every function environment, NumMethod oracle
+   and receiver (inside the same conditions as FetchFn above), the Value the regenerated FetchFnNil returns is the
+   zero Value exactly when the receiver is nil or Prim.fetch_fn_zero holds (a nil interface entry of an
+   interface-typed map, a nil pointer entry of a pointer-typed map); the regenerated FetchFn returns it exactly
+   when Prim.fetch_fn_zero holds.  Sem.eval (EMethod, nil-safe) and the model VM (IMethodNilSafe) answer nil there. *)
+Definition fetch_fn_zero_is_source_statement : Prop :=
+  forall (fe : fenv) (nm : value -> Z) (F d : nat),
+  let run := pinterp fe nm p_equal F (S (S d)) runtime_funs in
+  nmeth_sound fe nm -> forall from name, named_ok from = true -> fn_map_ok from = true ->
+     observed_zero (run "FetchFn" [GI from; GStr name]) = Some (fetch_fn_zero from name)
+  /\ observed_zero (run "FetchFnNil" [GI from; GStr name]) =
+     Some (match from with VNil => true | _ => fetch_fn_zero from name end).
+
+Theorem fetch_fn_zero_is_source : fetch_fn_zero_is_source_statement.
+Proof.
+  intros fe nm F d run Hm from name H1 H2. unfold run, pinterp.
+  split; [apply FetchFn_zero_is_model|apply FetchFnNil_zero_is_model]; assumption.
+Qed.
 
 (* ================================================================== the whole *)
 Definition model_runtime_is_source_statement : Prop :=
